@@ -65,6 +65,11 @@ class Check:
         key = "%s:%s:%s" % (rule, construct, instance)
         if key in self._seen:
             return
+        if "ext:" in str(derived):
+            # safety net: the derived fact contains a library application the model does not interpret (`ext:<name>`); a mismatch with the
+            # expectation then says nothing about the code. Not decided (exit 2), never an alarm.
+            self.unknown(rule, "%s: derived fact goes through an unmodelled library call: %s" % (instance, str(derived)[:200]))
+            return
         self._seen.add(key)
         self._count(rule)
         self.violations.append({"rule": rule, "construct": construct, "instance": instance, "key": key,
